@@ -9,6 +9,7 @@ CONSTANTS
   SlowSet = {}
   CfgWrite = FALSE
   NCl = 2
+  MaxSend = 1
 INVARIANT MonitorQuiet
 INVARIANT OneReceivePath
 INVARIANT LockDiscipline
